@@ -301,7 +301,7 @@ theorem winRow_iff (st en : Option Int) (row : ERow D) :
   cases st <;> cases en <;> simp [winRow]
   exact And.comm
 
-theorem view_some {s : St D} {b : String} {m : Meta} {es : List (Ev D)}
+theorem rows_of_view {s : St D} {b : String} {m : Meta} {es : List (Ev D)}
     (h : view s b = some (m, es)) : ∃ r, rowOf s b = some r ∧ es = (rowsOf s r).map toEv := by
   unfold view at h; unfold rowOf
   cases hf : s.buckets.find? (fun r => r.bid = b) with
@@ -310,7 +310,7 @@ theorem view_some {s : St D} {b : String} {m : Meta} {es : List (Ev D)}
     simp only [hf, Option.some.injEq, Prod.mk.injEq] at h
     exact ⟨r.rowid, rfl, h.2.symm⟩
 
-theorem rowOf_some {s : St D} {b : String} {r : Int} (h : rowOf s b = some r) :
+theorem view_of_rowOf {s : St D} {b : String} {r : Int} (h : rowOf s b = some r) :
     ∃ m, view s b = some (m, (rowsOf s r).map toEv) := by
   unfold rowOf at h; unfold view
   cases hf : s.buckets.find? (fun r => r.bid = b) with
@@ -319,7 +319,7 @@ theorem rowOf_some {s : St D} {b : String} {r : Int} (h : rowOf s b = some r) :
     simp only [hf, Option.map_some, Option.some.injEq] at h
     subst h; exact ⟨r'.md, rfl⟩
 
-theorem view_none_iff (s : St D) (b : String) : view s b = none ↔ rowOf s b = none := by
+theorem view_none_iff_rowOf (s : St D) (b : String) : view s b = none ↔ rowOf s b = none := by
   unfold view rowOf
   cases hf : s.buckets.find? (fun r => r.bid = b) <;> simp
 
@@ -340,12 +340,12 @@ theorem getEvents_eq (s : St D) (b : String) (r : Int) (hr : rowOf s b = some r)
 /-- a missing bucket reads as empty (no error on this backend) -/
 theorem getEvents_missing (s : St D) (b : String) (h : view s b = none)
     (limit : Int) (st en : Option Int) : getEvents s b limit st en = [] := by
-  rw [view_none_iff] at h
+  rw [view_none_iff_rowOf] at h
   unfold getEvents; simp [h]
 
 theorem getEventcount_missing (s : St D) (b : String) (h : view s b = none)
     (st en : Option Int) : getEventcount s b st en = 0 := by
-  rw [view_none_iff] at h
+  rw [view_none_iff_rowOf] at h
   unfold getEventcount; simp [h]
 
 theorem mem_orderDesc (x : ERow D) (l : List (ERow D)) : x ∈ orderDesc l ↔ x ∈ l := by
@@ -380,13 +380,13 @@ theorem get_sound (s : St D) (b : String) (limit : Int) (st en : Option Int) (x 
       (st = none → 0 ≤ x.ts + x.dur) := by
   cases hr : rowOf s b with
   | none =>
-    rw [getEvents_missing s b ((view_none_iff s b).mpr hr)] at hx
+    rw [getEvents_missing s b ((view_none_iff_rowOf s b).mpr hr)] at hx
     cases hx
   | some r =>
     rw [getEvents_eq s b r hr] at hx
     obtain ⟨row, hrow, rfl⟩ := List.mem_map.mp (mem_of_mem_applyLimit hx)
     obtain ⟨hmem, hwin⟩ := (mem_selected s r st en row).mp hrow
-    obtain ⟨m, hv⟩ := rowOf_some hr
+    obtain ⟨m, hv⟩ := view_of_rowOf hr
     have hw := (winRow_iff st en row).mp hwin
     exact ⟨m, _, hv, List.mem_map_of_mem hmem, hw.1, hw.2⟩
 
@@ -397,7 +397,7 @@ theorem get_complete_partial (s : St D) (b : String) (limit : Int) (hl : limit <
     (e : Ev D) (he : e ∈ es) (hw : inWindow st en e = true)
     (hpos : st = none → 0 ≤ e.ts + e.dur) :
     e ∈ getEvents s b limit st en := by
-  obtain ⟨r, hr, rfl⟩ := view_some hv
+  obtain ⟨r, hr, rfl⟩ := rows_of_view hv
   rw [getEvents_eq s b r hr, applyLimit_neg _ hl]
   obtain ⟨row, hrow, rfl⟩ := List.mem_map.mp he
   exact List.mem_map_of_mem ((mem_selected s r st en row).mpr ⟨hrow, (winRow_iff st en row).mpr ⟨hw, hpos⟩⟩)
@@ -413,7 +413,7 @@ theorem get_complete (s : St D) (b : String) (limit : Int) (hl : limit < 0)
 theorem get_sorted (s : St D) (b : String) (limit : Int) (st en : Option Int) :
     List.Pairwise (fun a b => b.ts ≤ a.ts) (getEvents s b limit st en) := by
   cases hr : rowOf s b with
-  | none => rw [getEvents_missing s b ((view_none_iff s b).mpr hr)]; exact List.Pairwise.nil
+  | none => rw [getEvents_missing s b ((view_none_iff_rowOf s b).mpr hr)]; exact List.Pairwise.nil
   | some r =>
     rw [getEvents_eq s b r hr]
     refine List.Pairwise.sublist (applyLimit_sublist _ _) ?_
@@ -425,7 +425,7 @@ theorem get_sorted_lex (s : St D) (b : String) (limit : Int) (st en : Option Int
     List.Pairwise (fun a b => b.ts < a.ts ∨ (b.ts = a.ts ∧ ∀ i j, a.id = some i → b.id = some j → j ≤ i))
       (getEvents s b limit st en) := by
   cases hr : rowOf s b with
-  | none => rw [getEvents_missing s b ((view_none_iff s b).mpr hr)]; exact List.Pairwise.nil
+  | none => rw [getEvents_missing s b ((view_none_iff_rowOf s b).mpr hr)]; exact List.Pairwise.nil
   | some r =>
     rw [getEvents_eq s b r hr]
     refine List.Pairwise.sublist (applyLimit_sublist _ _) ?_
@@ -443,13 +443,13 @@ theorem get_limit_zero (s : St D) (b : String) (st en : Option Int) :
 theorem get_limit_pos (s : St D) (b : String) (limit : Int) (hl : 0 < limit) (st en : Option Int) :
     getEvents s b limit st en = (getEvents s b (-1) st en).take limit.toNat := by
   cases hr : rowOf s b with
-  | none => simp [getEvents_missing s b ((view_none_iff s b).mpr hr)]
+  | none => simp [getEvents_missing s b ((view_none_iff_rowOf s b).mpr hr)]
   | some r => rw [getEvents_eq s b r hr, getEvents_eq s b r hr, applyLimit_pos_eq_take _ hl]
 
 theorem get_limit_neg (s : St D) (b : String) (limit : Int) (hl : limit < 0) (st en : Option Int) :
     getEvents s b limit st en = getEvents s b (-1) st en := by
   cases hr : rowOf s b with
-  | none => simp [getEvents_missing s b ((view_none_iff s b).mpr hr)]
+  | none => simp [getEvents_missing s b ((view_none_iff_rowOf s b).mpr hr)]
   | some r =>
     rw [getEvents_eq s b r hr, getEvents_eq s b r hr, applyLimit_neg _ hl, applyLimit_neg _ (by omega)]
 
@@ -458,8 +458,8 @@ theorem count_eq (s : St D) (b : String) (st en : Option Int) :
     getEventcount s b st en = (getEvents s b (-1) st en).length := by
   cases hr : rowOf s b with
   | none =>
-    rw [getEvents_missing s b ((view_none_iff s b).mpr hr),
-        getEventcount_missing s b ((view_none_iff s b).mpr hr)]; rfl
+    rw [getEvents_missing s b ((view_none_iff_rowOf s b).mpr hr),
+        getEventcount_missing s b ((view_none_iff_rowOf s b).mpr hr)]; rfl
   | some r =>
     rw [getEvents_eq s b r hr, applyLimit_neg _ (by omega), List.length_map]
     unfold selected; rw [length_orderDesc]
@@ -470,7 +470,7 @@ theorem count_eq (s : St D) (b : String) (st en : Option Int) :
 theorem count_eq_spec (s : St D) (b : String) (st en : Option Int) (m : Meta) (es : List (Ev D))
     (hv : view s b = some (m, es)) (hpos : ∀ e ∈ es, 0 ≤ e.ts + e.dur) :
     getEventcount s b st en = (es.filter (inWindow st en)).length := by
-  obtain ⟨r, hr, rfl⟩ := view_some hv
+  obtain ⟨r, hr, rfl⟩ := rows_of_view hv
   unfold getEventcount; simp only [hr]
   rw [List.filter_map, List.length_map]
   congr 1
@@ -502,30 +502,30 @@ theorem count_le_get_rounded (s : St D) (b : String) (st en : Option Int)
   exact count_window_mono s b st en _ _ (roundWin_wider st en) hpos
 
 /-! concrete state: two buckets, three events in bucket "a" (one before 1970), one in "b" -/
-def exSt : St Unit :=
+def exReads : St Unit :=
   { buckets := [⟨1, "a", default⟩, ⟨2, "b", default⟩],
     events := [⟨1, 1, 5000, 9000, ()⟩, ⟨2, 2, 6000, 7000, ()⟩, ⟨3, 1, 5000, 5000, ()⟩,
                ⟨4, 1, -9000, -8000, ()⟩],
     seqB := 2, seqE := 4 }
 
-example : getEvents exSt "a" (-1) (some 5000) (some 6000)
+example : getEvents exReads "a" (-1) (some 5000) (some 6000)
     = [⟨some 3, 5000, 0, ()⟩, ⟨some 1, 5000, 4000, ()⟩] := by decide
-example : getEvents exSt "a" 1 (some 5000) (some 6000) = [⟨some 3, 5000, 0, ()⟩] := by decide
-example : getEventcount exSt "a" (some 5000) (some 6000) = 2 := by decide
+example : getEvents exReads "a" 1 (some 5000) (some 6000) = [⟨some 3, 5000, 0, ()⟩] := by decide
+example : getEventcount exReads "a" (some 5000) (some 6000) = 2 := by decide
 
 /-- the hypotheses of `count_window_mono` are satisfiable (bucket "b") -/
-example : getEventcount exSt "b" (some 6500) (some 6600) ≤ getEventcount exSt "b" none (some 7000) := by
+example : getEventcount exReads "b" (some 6500) (some 6600) ≤ getEventcount exReads "b" none (some 7000) := by
   apply count_window_mono
   · constructor
     · intro a' h; cases h
     · intro z' h; cases h; exact ⟨6600, rfl, by decide⟩
   · intro m es hv
-    have : view exSt "b" = some (default, [⟨some 2, 6000, 1000, ()⟩]) := by decide
+    have : view exReads "b" = some (default, [⟨some 2, 6000, 1000, ()⟩]) := by decide
     rw [this] at hv; cases hv; decide
 
 /-- `get_complete_partial` applied: event 1 of bucket "a" -/
-example : (⟨some 1, 5000, 4000, ()⟩ : Ev Unit) ∈ getEvents exSt "a" (-1) none (some 6000) :=
-  get_complete_partial exSt "a" (-1) (by decide) none (some 6000) default
+example : (⟨some 1, 5000, 4000, ()⟩ : Ev Unit) ∈ getEvents exReads "a" (-1) none (some 6000) :=
+  get_complete_partial exReads "a" (-1) (by decide) none (some 6000) default
     [⟨some 1, 5000, 4000, ()⟩, ⟨some 3, 5000, 0, ()⟩, ⟨some 4, -9000, 1000, ()⟩] (by decide) _
     (by decide) (by decide) (fun _ => by decide)
 
@@ -535,7 +535,7 @@ theorem get_complete_counterexample :
     ∃ (s : St Unit) (m : Meta) (es : List (Ev Unit)) (e : Ev Unit),
       view s "a" = some (m, es) ∧ e ∈ es ∧ inWindow none none e = true ∧
       e ∉ getEvents s "a" (-1) none none :=
-  ⟨exSt, default, [⟨some 1, 5000, 4000, ()⟩, ⟨some 3, 5000, 0, ()⟩, ⟨some 4, -9000, 1000, ()⟩],
+  ⟨exReads, default, [⟨some 1, 5000, 4000, ()⟩, ⟨some 3, 5000, 0, ()⟩, ⟨some 4, -9000, 1000, ()⟩],
    ⟨some 4, -9000, 1000, ()⟩, by decide, by decide, by decide, by decide⟩
 
 end Aw.Store.Sqlite
@@ -740,21 +740,21 @@ theorem count_le_get_rounded (s : St D) (b : String) (st en : Option Int) (n : N
   | error e => rw [hg] at h1; cases h1
   | ok r => rw [hg] at h1; cases h1; exact ⟨r, rfl, h2⟩
 
-def exSt : St Unit :=
+def exReads : St Unit :=
   [("a", (default, [⟨some 0, 5000, 4000, ()⟩, ⟨some 1, 7000, 0, ()⟩, ⟨some 2, 5000, 0, ()⟩,
                     ⟨some 3, 1000, 1000, ()⟩])),
    ("b", (default, [⟨some 0, 6000, 1000, ()⟩]))]
 
-example : getEvents exSt "a" (-1) (some 5000) (some 6000)
+example : getEvents exReads "a" (-1) (some 5000) (some 6000)
     = .ok [⟨some 2, 5000, 0, ()⟩, ⟨some 0, 5000, 4000, ()⟩] := rfl
-example : getEvents exSt "a" 1 (some 5000) (some 6000) = .ok [⟨some 2, 5000, 0, ()⟩] := rfl
-example : getEventcount exSt "a" (some 5000) (some 6000) = .ok 2 := rfl
-example : getEvents exSt "c" 1 none none = .error .keyError := rfl
+example : getEvents exReads "a" 1 (some 5000) (some 6000) = .ok [⟨some 2, 5000, 0, ()⟩] := rfl
+example : getEventcount exReads "a" (some 5000) (some 6000) = .ok 2 := rfl
+example : getEvents exReads "c" 1 none none = .error .keyError := rfl
 
 /-- `get_complete` applied: event 0 of bucket "a" -/
-example : ∃ r, getEvents exSt "a" (-1) (some 5000) (some 6000) = .ok r ∧
+example : ∃ r, getEvents exReads "a" (-1) (some 5000) (some 6000) = .ok r ∧
     (⟨some 0, 5000, 4000, ()⟩ : Ev Unit) ∈ r :=
-  get_complete exSt "a" (-1) (by decide) _ _ default _ rfl _ (by decide) (by decide)
+  get_complete exReads "a" (-1) (by decide) _ _ default _ rfl _ (by decide) (by decide)
 
 end Aw.Store.Memory
 
@@ -768,13 +768,17 @@ variable {D : Type}
 def CacheOk (s : St D) : Prop :=
   ∀ b, keyOf s b = (s.buckets.find? (fun r => r.bid = b)).map (·.key)
 
-theorem cacheOk_refresh (s : St D) : CacheOk (refresh s) := by
+/-- the cache being the projection of the bucket table is enough -/
+theorem cacheOk_of_keys (s : St D) (h : s.keys = s.buckets.map (fun r => (r.bid, r.key))) :
+    CacheOk s := by
   intro b
-  simp [keyOf, refresh, List.find?_map, Function.comp_def]
+  simp [keyOf, h, List.find?_map, Function.comp_def]
+
+theorem cacheOk_refresh (s : St D) : CacheOk (refresh s) := cacheOk_of_keys _ rfl
 
 theorem cacheOk_empty : CacheOk ({} : St D) := by intro b; rfl
 
-theorem view_some {s : St D} (hc : CacheOk s) {b : String} {m : Meta} {es : List (Ev D)}
+theorem rows_of_view {s : St D} (hc : CacheOk s) {b : String} {m : Meta} {es : List (Ev D)}
     (h : view s b = some (m, es)) : ∃ k, keyOf s b = some k ∧ es = (rowsOf s k).map toEv := by
   rw [hc b]; unfold view at h
   cases hf : s.buckets.find? (fun r => r.bid = b) with
@@ -783,7 +787,7 @@ theorem view_some {s : St D} (hc : CacheOk s) {b : String} {m : Meta} {es : List
     simp only [hf, Option.some.injEq, Prod.mk.injEq] at h
     exact ⟨r.key, rfl, h.2.symm⟩
 
-theorem keyOf_some {s : St D} (hc : CacheOk s) {b : String} {k : Int} (h : keyOf s b = some k) :
+theorem view_of_keyOf {s : St D} (hc : CacheOk s) {b : String} {k : Int} (h : keyOf s b = some k) :
     ∃ m, view s b = some (m, (rowsOf s k).map toEv) := by
   rw [hc b] at h; unfold view
   cases hf : s.buckets.find? (fun r => r.bid = b) with
@@ -792,7 +796,7 @@ theorem keyOf_some {s : St D} (hc : CacheOk s) {b : String} {k : Int} (h : keyOf
     simp only [hf, Option.map_some, Option.some.injEq] at h
     subst h; exact ⟨r'.md, rfl⟩
 
-theorem view_none_iff {s : St D} (hc : CacheOk s) (b : String) : view s b = none ↔ keyOf s b = none := by
+theorem view_none_iff_keyOf {s : St D} (hc : CacheOk s) (b : String) : view s b = none ↔ keyOf s b = none := by
   rw [hc b]; unfold view
   cases hf : s.buckets.find? (fun r => r.bid = b) <;> simp
 
@@ -844,7 +848,7 @@ theorem getEvents_error_iff_key (s : St D) (b : String) (limit : Int)
 theorem getEvents_error_iff (s : St D) (hc : CacheOk s) (b : String) (limit : Int)
     (st en : Option Int) (dec : Ev D → Ev D) (e : Err) :
     getEvents s b limit st en dec = .error e ↔ e = .keyError ∧ limit ≠ 0 ∧ view s b = none := by
-  rw [view_none_iff hc]; exact getEvents_error_iff_key s b limit st en dec e
+  rw [view_none_iff_keyOf hc]; exact getEvents_error_iff_key s b limit st en dec e
 
 theorem getEventcount_eq (s : St D) (b : String) (k : Int) (hk : keyOf s b = some k)
     (st en : Option Int) :
@@ -854,7 +858,7 @@ theorem getEventcount_eq (s : St D) (b : String) (k : Int) (hk : keyOf s b = som
 theorem getEventcount_error_iff (s : St D) (hc : CacheOk s) (b : String)
     (st en : Option Int) (e : Err) :
     getEventcount s b st en = .error e ↔ e = .keyError ∧ view s b = none := by
-  rw [view_none_iff hc]
+  rw [view_none_iff_keyOf hc]
   cases hk : keyOf s b with
   | none =>
     unfold getEventcount; simp only [hk]
@@ -974,14 +978,14 @@ theorem get_sound (s : St D) (hc : CacheOk s) (b : String) (limit : Int) (st en 
     by_cases h0 : limit = 0
     · subst h0; rw [get_limit_zero] at hr; cases hr; cases hx
     · have := (getEvents_error_iff s hc b limit st en dec .keyError).mpr
-        ⟨rfl, h0, (view_none_iff hc b).mpr hk⟩
+        ⟨rfl, h0, (view_none_iff_keyOf hc b).mpr hk⟩
       rw [this] at hr; cases hr
   | some k =>
     rw [getEvents_eq s b k hk] at hr
     cases hr
     obtain ⟨row, hrow, rfl⟩ := List.mem_map.mp hx
     obtain ⟨hmem, hin⟩ := (mem_selected s k st en row).mp (mem_of_mem_applyLimit hrow)
-    obtain ⟨m, hv⟩ := keyOf_some hc hk
+    obtain ⟨m, hv⟩ := view_of_keyOf hc hk
     have hw := (inRange_iff st en row).mp hin
     exact ⟨m, _, toEv row, hv, List.mem_map_of_mem hmem, rfl, hw.1, hw.2⟩
 
@@ -992,7 +996,7 @@ theorem get_complete (s : St D) (hc : CacheOk s) (b : String) (limit : Int) (hl 
     (hv : view s b = some (m, es)) (e : Ev D) (he : e ∈ es) (hw : inWindow st en e = true)
     (hd : e.dur ≤ 86400000000) :
     ∃ r, getEvents s b limit st en dec = .ok r ∧ clip st en (dec e) ∈ r := by
-  obtain ⟨k, hk, rfl⟩ := view_some hc hv
+  obtain ⟨k, hk, rfl⟩ := rows_of_view hc hv
   refine ⟨_, getEvents_eq s b k hk limit st en dec, ?_⟩
   rw [applyLimit_neg _ hl]
   obtain ⟨row, hrow, rfl⟩ := List.mem_map.mp he
@@ -1012,12 +1016,12 @@ theorem get_sorted_stored (s : St D) (hc : CacheOk s) (b : String) (limit : Int)
   cases hk : keyOf s b with
   | none =>
     have := (getEvents_error_iff s hc b limit st en dec .keyError).mpr
-      ⟨rfl, hl, (view_none_iff hc b).mpr hk⟩
+      ⟨rfl, hl, (view_none_iff_keyOf hc b).mpr hk⟩
     rw [this] at hr; cases hr
   | some k =>
     rw [getEvents_eq s b k hk] at hr
     cases hr
-    obtain ⟨m, hv⟩ := keyOf_some hc hk
+    obtain ⟨m, hv⟩ := view_of_keyOf hc hk
     refine ⟨m, _, (applyLimit limit (selected s k st en)).map toEv, hv, ?_, ?_, ?_⟩
     · rw [List.map_map]; rfl
     · intro e he
@@ -1085,7 +1089,7 @@ theorem count_eq_spec (s : St D) (hc : CacheOk s) (b : String) (st en : Option I
     (m : Meta) (es : List (Ev D)) (hv : view s b = some (m, es)) :
     getEventcount s b st en = .ok (es.filter (fun e =>
       inWindow st en e && (match st with | some a => decide (a - 86400000000 ≤ e.ts) | none => true))).length := by
-  obtain ⟨k, hk, rfl⟩ := view_some hc hv
+  obtain ⟨k, hk, rfl⟩ := rows_of_view hc hv
   rw [getEventcount_eq s b k hk, List.filter_map, List.length_map]
   congr 2
   apply List.filter_congr
@@ -1126,23 +1130,23 @@ theorem count_le_get_rounded (s : St D) (b : String) (st en : Option Int) (dec :
   | error e => rw [hg] at h1; cases h1
   | ok r => rw [hg] at h1; cases h1; exact ⟨r, rfl, h2⟩
 
-def exSt : St Unit :=
+def exReads : St Unit :=
   refresh { buckets := [⟨1, "a", default⟩, ⟨2, "b", default⟩],
             events := [⟨1, 1, 4000, 3000, ()⟩, ⟨2, 2, 6000, 1000, ()⟩, ⟨3, 1, 5000, 0, ()⟩,
                        ⟨4, 1, 1000, 1000, ()⟩, ⟨5, 1, -90000000000, 100000000000, ()⟩] }
 
-example : CacheOk exSt := cacheOk_refresh _
-example : getEvents exSt "a" (-1) (some 5000) (some 6000)
+example : CacheOk exReads := cacheOk_refresh _
+example : getEvents exReads "a" (-1) (some 5000) (some 6000)
     = .ok [⟨some 3, 5000, 0, ()⟩, ⟨some 1, 5000, 1000, ()⟩] := rfl
-example : getEvents exSt "a" 1 (some 5000) (some 6000) = .ok [⟨some 3, 5000, 0, ()⟩] := rfl
-example : getEventcount exSt "a" (some 5000) (some 6000) = .ok 2 := rfl
-example : getEvents exSt "c" 1 none none = .error .keyError := rfl
-example : getEvents exSt "c" 0 none none = .ok [] := rfl
+example : getEvents exReads "a" 1 (some 5000) (some 6000) = .ok [⟨some 3, 5000, 0, ()⟩] := rfl
+example : getEventcount exReads "a" (some 5000) (some 6000) = .ok 2 := rfl
+example : getEvents exReads "c" 1 none none = .error .keyError := rfl
+example : getEvents exReads "c" 0 none none = .ok [] := rfl
 
 /-- `get_complete` applied: event 1 of bucket "a" is returned cut to the window -/
-example : ∃ r, getEvents exSt "a" (-1) (some 5000) (some 6000) = .ok r ∧
+example : ∃ r, getEvents exReads "a" (-1) (some 5000) (some 6000) = .ok r ∧
     clip (some 5000) (some 6000) (⟨some 1, 4000, 3000, ()⟩ : Ev Unit) ∈ r :=
-  get_complete exSt (cacheOk_refresh _) "a" (-1) (by decide) _ _ id default _ rfl _
+  get_complete exReads (cacheOk_refresh _) "a" (-1) (by decide) _ _ id default _ rfl _
     (by decide) (by decide) (by decide)
 
 /-- the 24 h bound of `get_complete` is needed: event 5 of bucket "a" spans the whole window but
@@ -1152,7 +1156,7 @@ theorem get_complete_needs_24h :
       CacheOk s ∧ view s "a" = some (m, es) ∧ e ∈ es ∧ inWindow (some 5000) (some 6000) e = true ∧
       getEvents s "a" (-1) (some 5000) (some 6000) = .ok [⟨some 3, 5000, 0, ()⟩, ⟨some 1, 5000, 1000, ()⟩] ∧
       clip (some 5000) (some 6000) e ∉ [(⟨some 3, 5000, 0, ()⟩ : Ev Unit), ⟨some 1, 5000, 1000, ()⟩] :=
-  ⟨exSt, default,
+  ⟨exReads, default,
    [⟨some 1, 4000, 3000, ()⟩, ⟨some 3, 5000, 0, ()⟩, ⟨some 4, 1000, 1000, ()⟩,
     ⟨some 5, -90000000000, 100000000000, ()⟩],
    ⟨some 5, -90000000000, 100000000000, ()⟩,
